@@ -332,6 +332,9 @@ func (c *Client) Block(ctx context.Context, height *int64) (*ctypes.ResultBlock,
 		return nil, fmt.Errorf("block header %X does not match with trusted header %X",
 			bH, tH)
 	}
+	if err := c.verifyLastCommit(ctx, res.Block); err != nil {
+		return nil, err
+	}
 
 	return res, nil
 }
@@ -366,8 +369,37 @@ func (c *Client) BlockByHash(ctx context.Context, hash []byte) (*ctypes.ResultBl
 		return nil, fmt.Errorf("block header %X does not match with trusted header %X",
 			bH, tH)
 	}
+	if err := c.verifyLastCommit(ctx, res.Block); err != nil {
+		return nil, err
+	}
 
 	return res, nil
+}
+
+// verifyLastCommit checks the parts of block.LastCommit that the (already
+// verified) header does not commit to: LastCommitHash covers the signatures
+// only, not the height, round and block ID they were made for.
+func (c *Client) verifyLastCommit(ctx context.Context, block *types.Block) error {
+	lastCommit := block.LastCommit
+	if len(lastCommit.Signatures) == 0 {
+		// the first block of a chain carries the empty commit
+		if lastCommit.Height != 0 || lastCommit.Round != 0 || !lastCommit.BlockID.IsZero() {
+			return errors.New("empty last commit with non-zero height, round or block ID")
+		}
+		return nil
+	}
+
+	// The signatures must be those of the validators of the previous height for
+	// (previous height, round, header.LastBlockID).
+	prevHeight := block.Height - 1
+	prev, err := c.updateLightClientIfNeededTo(ctx, &prevHeight)
+	if err != nil {
+		return err
+	}
+	if err := prev.ValidatorSet.VerifyCommitLight(c.lc.ChainID(), block.LastBlockID, prevHeight, lastCommit); err != nil {
+		return fmt.Errorf("last commit of block %d: %w", block.Height, err)
+	}
+	return nil
 }
 
 // BlockResults returns the block results for the given height. If no height is
